@@ -144,6 +144,34 @@ func delays(q, t int) func(*Config, bool) {
 
 func registerMore2() {
 	addProp(&PropSpec{
+		ID: "C15",
+		Explanation: "PARTIAL. Decided: (1) Request.UnmarshalParams on symbolic params objects (optional x token, y string, optional unknown field; or empty) into a RawMessage (copy, never an error, untouched when empty), an ordinary struct (unknown fields ignored, values as encoding/json decodes them), a type with DisallowUnknownFields and the StrictFields wrapper (unknown field -> InvalidParams), and params of the wrong JSON kind (-> InvalidParams); " +
+			"(2) arrayStub.translate, the array-to-field mapping for struct parameters: arrays of 0..3 symbolic elements against two names (wrong length -> InvalidParams, element i becomes field i, non-arrays unchanged). " +
+			"NOT decided (not applicable to this technique here): everything behind reflect - Check's signature classification (reflect.Type), FuncInfo.Wrap's reflect.New / Value.Call / Interface path, i.e. 'calls the function exactly once with the decoded argument' and 'never panics on any params'. reflect has no Go source semantics the engine can execute and a model of it would verify the model, not the code.",
+		Bounds:      []string{"params: object with <= 3 members or a 1-element array", "array of 0..3 elements, 2 positional names"},
+		Outside:     []string{"handler.Check, FuncInfo.Wrap, handler.New (reflect)", "decoding into arbitrary user types (encoding/json stub covers RawMessage/string/int/struct-of-those)"},
+		Assumptions: append([]string{jsonAssumption, "json.Decoder with DisallowUnknownFields: fails iff an object key matches no field"}, commonAssumptions...),
+		Harnesses: []HarnessSpec{
+			{Dir: "jrpc2", Name: "Harness_C15_unmarshal", Reach: []string{"raw", "struct", "strict-ok", "strict-rejected", "wrapper-ok", "wrapper-rejected"}},
+			{Dir: "handler", Name: "Harness_C15_params", Reach: []string{"wrong-arity", "translated", "passthrough"}},
+		},
+	})
+	addProp(&PropSpec{
+		ID: "C16",
+		Explanation: "PARTIAL. Decided at JSON-token level: Args.UnmarshalJSON (0..3 slots that are nil, *int, *string or *json.RawMessage against arrays of 0..3 elements of symbolic kind: exact length, no target touched on mismatch, element i into slot i, nil slots skipped, null leaves targets unchanged, failure only when an element does not fit), Args.MarshalJSON (element-wise, [] when empty), " +
+			"Obj.UnmarshalJSON (targets a/b present or not against objects with any subset of a/b/c, every map order: only keys present in both are decoded, no other target or the map itself is touched; non-objects refused), and arrayStub.translate (shared with C15). " +
+			"NOT decided: Positional/NewPos end to end - reflect.StructOf, reflect.MakeFunc and struct decoding into synthesized types have no executable source semantics here.",
+		Bounds:      []string{"<= 3 slots / elements", "Obj with <= 2 targets and <= 3 members"},
+		Outside:     []string{"handler.Positional, NewPos, makeArgType, makeCaller (reflect)"},
+		Assumptions: append([]string{jsonAssumption, "a JSON number decodes into an int target or fails (both allowed when the number's text is opaque)"}, commonAssumptions...),
+		Harnesses: []HarnessSpec{
+			{Dir: "handler", Name: "Harness_C16_args", Reach: []string{"not-array", "length-mismatch", "element-error", "decoded"}},
+			{Dir: "handler", Name: "Harness_C16_args_marshal", Reach: []string{"marshalled"}},
+			{Dir: "handler", Name: "Harness_C16_obj", Reach: []string{"decoded", "obj-done"}},
+			{Dir: "handler", Name: "Harness_C15_params", Reach: []string{"translated"}},
+		},
+	})
+	addProp(&PropSpec{
 		ID: "C18",
 		Explanation: "Bridge.ServeHTTP is executed with a real server.Local behind it (server and client goroutines as engine threads) on one HTTP request: method in {POST, GET, PUT}, content type in {application/json, +charset=utf-8, +charset=latin1, text/plain, none}, body invalid JSON or 1..2 (thorough 3) members that are symbolically a call to an echo method (arbitrary string/number id, params token), a notification, a statically invalid member with a usable id, or one without. " +
 			"The recorded status and body are compared with the expected responses: caller's id text on every response, result equal to that call's own params, error objects for static errors, object vs array, 204 for notifications only, 405/415/error status without running a handler. A second harness runs two concurrent HTTP callers that use the same id for different calls.",
